@@ -17,6 +17,8 @@ import VlsModel.Lemmas.FnGen
   (`translate/x_approver.py`); the delegate, the clock and the invoice accessor are explicit (universally quantified)
   parameters.
 * `approve_onchain` of the velocity approver is the delegate's answer, on the unchanged arguments.
+* `Approve::handle_proposed_invoice` / `handle_proposed_keysend` (default methods, i.e. every approver): known payment →
+  `true` without a question; else add iff allowlisted payee or approval; a refusal adds nothing.
 -/
 namespace VlsModel.Props.ApproverFn
 open VlsModel VlsModel.Velocity
@@ -179,6 +181,70 @@ theorem Approver_fn_velocity_control {C A : Type} (self : VelocityApprover C A) 
 
 theorem Approver_fn_velocity_set_control {C A : Type} (self : VelocityApprover C A) (c : VelocityControl) :
     VelocityApprover.set_control self c = { self with control := c } := rfl
+
+/-! ### `Approve::handle_proposed_invoice` / `handle_proposed_keysend` (default methods of the trait: every approver) -/
+section Proposed
+variable {S Node Invoice PaymentHash PaymentState PublicKey Clock Duration : Type}
+
+/-- **`handle_proposed_invoice`**, for every implementation of `approve_invoice` and of the node: a payment the node already
+    has is answered `true` without asking anybody; otherwise the invoice is added (`Node::add_invoice`, whose answer is the
+    result) iff the payee is on the allowlist **or** the approver says yes; a refusal is `Ok(false)` and adds nothing. -/
+theorem Approver_fn_handle_proposed_invoice (psi : Invoice → Rs.M (PaymentHash × PaymentState × List Nat))
+    (hp : Node → PaymentHash → List Nat → Rs.M Bool) (payee : Invoice → PublicKey) (allow : Node → PublicKey → Bool)
+    (add : Node → Invoice → Rs.M Bool) (appr : S → Invoice → Bool) (self : S) (node : Node) (inv : Invoice) :
+    Approve.handle_proposed_invoice psi hp payee allow add appr self node inv
+      = psi inv >>= fun t => hp node t.1 t.2.2 >>= fun known =>
+        if known then .ok true
+        else if allow node (payee inv) || appr self inv then add node inv else .ok false := by
+  unfold Approve.handle_proposed_invoice
+  cases psi inv with
+  | error e => rfl
+  | ok t =>
+    obtain ⟨h, st, ih⟩ := t
+    simp only [Rs.bind_ok]
+    cases hp node h ih with
+    | error e => rfl
+    | ok known =>
+      cases known
+      · simp only [Rs.bind_ok, Bool.false_eq_true, if_false]
+        cases allow node (payee inv) <;> cases appr self inv <;> rfl
+      · rfl
+
+/-- a refused invoice is not added: the outcome `Ok(false)` does not depend on `add_invoice` -/
+theorem Approver_fn_handle_proposed_invoice_refused (psi : Invoice → Rs.M (PaymentHash × PaymentState × List Nat))
+    (hp : Node → PaymentHash → List Nat → Rs.M Bool) (payee : Invoice → PublicKey) (allow : Node → PublicKey → Bool)
+    (add : Node → Invoice → Rs.M Bool) (appr : S → Invoice → Bool) (self : S) (node : Node) (inv : Invoice)
+    (t : PaymentHash × PaymentState × List Nat) (h1 : psi inv = .ok t) (h2 : hp node t.1 t.2.2 = .ok false)
+    (h3 : allow node (payee inv) = false) (h4 : appr self inv = false) :
+    Approve.handle_proposed_invoice psi hp payee allow add appr self node inv = .ok false := by
+  rw [Approver_fn_handle_proposed_invoice, h1]
+  simp [h2, h3, h4]
+
+/-- **`handle_proposed_keysend`**: the payment state is computed at the node's clock; known payment → `true`; otherwise
+    `add_keysend(payee, hash, amount)` iff the approver approves exactly that hash and amount, else `Ok(false)` -/
+theorem Approver_fn_handle_proposed_keysend (gc : Node → Clock) (now : Clock → Duration)
+    (psk : PublicKey → PaymentHash → Nat → Duration → Rs.M (PaymentState × List Nat))
+    (hp : Node → PaymentHash → List Nat → Rs.M Bool) (appr : S → PaymentHash → Nat → Bool)
+    (add : Node → PublicKey → PaymentHash → Nat → Rs.M Bool) (self : S) (node : Node) (payee : PublicKey) (h : PaymentHash)
+    (amt : Nat) :
+    Approve.handle_proposed_keysend gc now psk hp appr add self node payee h amt
+      = psk payee h amt (now (gc node)) >>= fun t => hp node h t.2 >>= fun known =>
+        if known then .ok true else if appr self h amt then add node payee h amt else .ok false := by
+  unfold Approve.handle_proposed_keysend
+  dsimp only
+  cases psk payee h amt (now (gc node)) with
+  | error e => rfl
+  | ok t =>
+    obtain ⟨st, ih⟩ := t
+    simp only [Rs.bind_ok]
+    cases hp node h ih with
+    | error e => rfl
+    | ok known =>
+      cases known
+      · simp only [Rs.bind_ok, Bool.false_eq_true, if_false]
+        cases appr self h amt <;> rfl
+      · rfl
+end Proposed
 
 /-- non-vacuity: a control with limit 100 in one bucket; 60 msat is approved automatically, the next 60 msat goes to
     the delegate, whose approval clears the control -/
